@@ -8,8 +8,8 @@ from ..absint import Client, Ctx, Interp
 from ..model import AnalysisError, Func, Program, walk_own
 from ..report import Report
 from ..resolve import const_value, dotted
-from ..util import returns_of, src
-from .cachefam import (CACHES_MOD, CacheFacts, rule_coherence_capacity, rule_invalidation, rule_value_stored)
+from ..util import assigned_value, iter_stores, returns_of, src
+from .cachefam import (CACHES_MOD, CacheFacts, rule_coherence_capacity, rule_invalidation, rule_list_ops, rule_value_stored)
 
 
 def run(prog: Program, rep: Report):
@@ -21,6 +21,7 @@ def run(prog: Program, rep: Report):
     r4_counts(prog, rep, cf, helper, count_field)
     r5_helper(prog, rep, cf, helper, count_field)
     r6_item_layout(prog, rep, cf, count_field)
+    rule_list_ops(prog, rep, cf, "C07.R7")
 
 
 def find_increment_helper(prog, cf: CacheFacts):
@@ -66,6 +67,58 @@ class _IncCount(Client):
         return (state,)
 
 
+class _InitCount(Client):
+    """state = (key present?, count given to the node on this path: None | 1 | 'other')"""
+
+    def __init__(self, cf, key, count_field, item_name, fields):
+        self.cf, self.key, self.cnt, self.item, self.fields = cf, key, count_field, item_name, fields
+
+    def should_inline(self, func, call, ctx):
+        return False
+
+    def refine(self, test, state, ctx):
+        present, c = state
+        if isinstance(test, ast.Compare) and len(test.ops) == 1 and isinstance(test.ops[0], (ast.In, ast.NotIn)) \
+                and isinstance(test.left, ast.Name) and test.left.id == self.key:
+            yes, no = (True, c), (False, c)
+            return ((yes,), (no,)) if isinstance(test.ops[0], ast.In) else ((no,), (yes,))
+        return (state,), (state,)
+
+    def event(self, kind, node, state, ctx):
+        present, c = state
+        if kind == "store" and isinstance(node, ast.Attribute) and node.attr == self.cnt:
+            d = dotted(node)
+            if d and len(d) == 3 and d[1] == self.cf.lf.payload:
+                v = const_value(assigned_value(node), "?") if assigned_value(node) is not None else "?"
+                return ((present, 1 if v == 1 and not isinstance(v, bool) else "other"),)
+        if kind in ("construct", "call") and isinstance(node, ast.Call) and self.item and src(node.func) == self.item:
+            v = "?"
+            if self.cnt in self.fields and len(node.args) > self.fields.index(self.cnt):
+                v = const_value(node.args[self.fields.index(self.cnt)], "?")
+            for kw in node.keywords:
+                if kw.arg == self.cnt:
+                    v = const_value(kw.value, "?")
+            return ((present, 1 if v == 1 and not isinstance(v, bool) else "other"),)
+        return (state,)
+
+
+class _HelperPaths(Client):
+    """state = number of increments of the count on this path (saturating at 2)"""
+
+    def __init__(self, node_param, payload, cnt):
+        self.n, self.payload, self.cnt = node_param, payload, cnt
+
+    def should_inline(self, func, call, ctx):
+        return False
+
+    def event(self, kind, node, state, ctx):
+        if kind == "aug" and dotted(node.target) == (self.n, self.payload, self.cnt) and isinstance(node.op, ast.Add):
+            return (min(2, state + 1),)
+        if kind == "store" and isinstance(node, ast.Attribute) and dotted(node) == (self.n, self.payload, self.cnt):
+            return (min(2, state + 1),)
+        return (state,)
+
+
 def r4_counts(prog, rep: Report, cf: CacheFacts, helper: Func, count_field: str):
     rep.rule("C07.R4", "count discipline: every use path (lookup, store to a present key) calls the increment helper "
              "exactly once; insertion paths set the count to the constant 1; new nodes enter at the victim end; "
@@ -97,29 +150,22 @@ def r4_counts(prog, rep: Report, cf: CacheFacts, helper: Func, count_field: str)
                   "insertion does not call the increment helper (count set to 1 directly)",
                   f"insertion path calls the increment helper {sorted(absent)} times on top of the initial count",
                   scenario="a new key starts with count 2 and is not the next victim although it is the least used")
-    # insertion constants
+    # insertion paths set the count of the node kept under the key to the constant 1 (all-paths)
     item_cls = prog.maybe_cls("Item", CACHES_MOD)
-    consts = []
-    for n in walk_own(f.node):
-        if isinstance(n, ast.Call) and item_cls is not None and src(n.func) == item_cls.name:
-            fields = _dataclass_fields(item_cls)
-            if count_field in fields and len(n.args) > fields.index(count_field):
-                consts.append(("new-node", const_value(n.args[fields.index(count_field)], "?"), n))
-            for kw in n.keywords:
-                if kw.arg == count_field:
-                    consts.append(("new-node", const_value(kw.value, "?"), n))
-        if isinstance(n, ast.Assign) and len(n.targets) == 1:
-            d = dotted(n.targets[0])
-            if d and len(d) == 3 and d[1] == lf.payload and d[2] == count_field:
-                consts.append(("reuse", const_value(n.value, "?"), n))
-    roles = {r for r, _, _ in consts}
-    if roles != {"new-node", "reuse"}:
-        rep.unrec("C07.R4", f, "initial-count", f"count initialisation sites found: {sorted(roles)} (expected new-node and reuse)")
-    for role, val, n in consts:
-        rep.check("C07.R4", f, f"initial-count:{role}", val == 1, "count starts at the constant 1",
-                  f"count initialised to {val!r} on the {role} path",
-                  scenario="a freshly inserted key does not have the minimal count 1: eviction order differs from the "
-                           "reference use counts", line=n.lineno)
+    fields = _dataclass_fields(item_cls) if item_cls is not None else []
+    client = _InitCount(cf, f.params[1], count_field, item_cls.name if item_cls else None, fields)
+    it = Interp(prog, client)
+    ex = it.run(f, {(None, None)}, cf.cls)
+    finals = ex.normal | ex.ret
+    absent_counts = sorted({str(s[1]) for s in finals if s[0] is False})
+    if not absent_counts:
+        rep.unrec("C07.R4", f, "initial-count", "no insertion path found")
+    else:
+        rep.check("C07.R4", f, "initial-count", absent_counts == ["1"], "every insertion path (new node, reused node) sets the count to 1",
+                  f"insertion paths leave the count of the stored node as {absent_counts} (None = never set: the reused node keeps the "
+                  f"evicted key's count)",
+                  scenario="cache(2): bring A and B to count 3, store X (evicts one, reuses its node): X must start with count 1, "
+                           "otherwise it outlives keys that were used more often")
     # insertion end == victim end == head (forward iteration yields smallest count first)
     victims, inserts = [], []
     for n in walk_own(f.node):
@@ -164,6 +210,13 @@ def r5_helper(prog, rep: Report, cf: CacheFacts, helper: Func, count_field: str)
             aug_i = i
         if isinstance(st, ast.While) and loop_i is None:
             loop_i, loop = i, st
+    hp = Interp(prog, _HelperPaths(node, lf.payload, count_field))
+    hex_ = hp.run(f, {0}, cf.cls)
+    incs = sorted({s for s in hex_.normal | hex_.ret})
+    rep.check("C07.R5", f, "increments-on-every-path", incs == [1], "every path through the helper increments the count exactly once",
+              f"paths through the increment helper change the count {incs} times (an early exit before the increment loses a use)",
+              scenario="capacity 2: A used 4 times while it is the last node of the list, B used 3 times; storing C must evict B, "
+                       "but A's uses were not counted and A is evicted")
     rep.check("C07.R5", f, "increment-before-scan", aug_i is not None and loop_i is not None and aug_i < loop_i,
               "count incremented before the position scan",
               "the count is not incremented before the scan: the node is positioned by its old count",
@@ -252,11 +305,11 @@ def r6_item_layout(prog, rep: Report, cf: CacheFacts, count_field: str):
     rep.ok("C07.R6", f, "writer", f"Item fields: key -> .{kf}, value -> .{vf}, count -> .{count_field}")
     # reuse path writes the same fields
     reuse = {}
-    for n in walk_own(f.node):
-        if isinstance(n, ast.Assign) and len(n.targets) == 1 and isinstance(n.value, ast.Name):
-            d = dotted(n.targets[0])
+    for t, val, _st in iter_stores(f.node):
+        if isinstance(val, ast.Name):
+            d = dotted(t)
             if d and len(d) == 3 and d[1] == cf.lf.payload:
-                reuse[n.value.id] = d[2]
+                reuse[val.id] = d[2]
     rep.check("C07.R6", f, "reuse-writes-same-fields", reuse.get(k) == kf and reuse.get(v) == vf,
               "the reuse path writes key and value into the same fields",
               f"reuse path writes key -> .{reuse.get(k)}, value -> .{reuse.get(v)} (constructor: .{kf}, .{vf})",
